@@ -2216,3 +2216,200 @@ func runNullSkipNeedsKnown(rr *RuleRun) {
 		rr.Info(pkg+"/null-skip", token.NoPos, "no Impl callback skips null arguments of a parameter that allows unknown values")
 	}
 }
+
+// ---------------------------------------------------------------------------
+// C08.paired-index-needs-length
+
+func init() {
+	register(&Rule{
+		ID: "C08.paired-index-needs-length", Prop: "C08", Also: []string{"C07", "C09", "C19", "C03"}, Floor: 6, Controls: 1,
+		Doc: "where a loop runs over the members of one operand (a parameter or the receiver, or a slice read out of it) and uses the loop index to address the members of a different operand (B[i], B.TupleElementType(i)), some branch condition on every path to that access relates the two lengths (len(A) ⋚ len(B), A.Length() ⋚ B.Length()): two tuples / paths / member lists handed in by the caller need not have the same length, and the unguarded access panics with an index out of range",
+		Run: runPairedIndexNeedsLength,
+	})
+}
+
+func runPairedIndexNeedsLength(rr *RuleRun) {
+	c := rr.Ctx
+	eachFuncBody(c, []string{"cty", "cty/convert", "cty/function/stdlib", "cty/json", "cty/msgpack", "cty/gocty"}, func(pkg string, fd *ast.FuncDecl, body *ast.BlockStmt) {
+		info := c.Info(pkg)
+		if fd.Body != body {
+			return // closures: parameters of the enclosing function are not roots here
+		}
+		// roots: receiver and parameters; derived: single-assignment locals defined from an expression that
+		// mentions exactly one root
+		rootOf := map[types.Object]types.Object{}
+		addRoot := func(fl *ast.FieldList) {
+			if fl == nil {
+				return
+			}
+			for _, f := range fl.List {
+				for _, nm := range f.Names {
+					if o := info.Defs[nm]; o != nil {
+						rootOf[o] = o
+					}
+				}
+			}
+		}
+		addRoot(fd.Recv)
+		addRoot(fd.Type.Params)
+		if len(rootOf) < 2 {
+			return
+		}
+		exprRoot := func(e ast.Expr) types.Object {
+			var r types.Object
+			multi := false
+			ast.Inspect(e, func(n ast.Node) bool {
+				if id, ok := n.(*ast.Ident); ok {
+					if ro, ok := rootOf[info.Uses[id]]; ok {
+						if r != nil && r != ro {
+							multi = true
+						}
+						r = ro
+					}
+				}
+				return true
+			})
+			if multi {
+				return nil
+			}
+			return r
+		}
+		for pass := 0; pass < 3; pass++ {
+			inspectNoLit(body, func(n ast.Node) bool {
+				as, ok := n.(*ast.AssignStmt)
+				if !ok || as.Tok != token.DEFINE || len(as.Lhs) != len(as.Rhs) {
+					return true
+				}
+				for i, l := range as.Lhs {
+					o := objOf(info, l)
+					if o == nil || countAssigns(info, body, o) != 0 {
+						continue
+					}
+					// only containers and types carry a length of their root
+					switch o.Type().Underlying().(type) {
+					case *types.Slice, *types.Map:
+					default:
+						if !isCtyType(o.Type()) && !isCtyValue(o.Type()) {
+							continue
+						}
+					}
+					if call, ok := ast.Unparen(as.Rhs[i]).(*ast.CallExpr); ok && isBuiltin(info, call, "make") {
+						continue
+					}
+					if r := exprRoot(as.Rhs[i]); r != nil {
+						if _, have := rootOf[o]; !have {
+							rootOf[o] = r
+						}
+					}
+				}
+				return true
+			})
+		}
+		cf := c.CondFacts(body, info, nil)
+		lenish := func(e ast.Expr) types.Object {
+			// len(X), X.Length(), X.LengthInt() → root of X
+			call, ok := ast.Unparen(e).(*ast.CallExpr)
+			if !ok {
+				return nil
+			}
+			if isBuiltin(info, call, "len") && len(call.Args) == 1 {
+				return exprRoot(call.Args[0])
+			}
+			if se, ok := call.Fun.(*ast.SelectorExpr); ok && (se.Sel.Name == "Length" || se.Sel.Name == "LengthInt") {
+				return exprRoot(se.X)
+			}
+			return nil
+		}
+		relates := func(cond ast.Expr, a, b types.Object) bool {
+			be, ok := ast.Unparen(cond).(*ast.BinaryExpr)
+			if !ok {
+				return false
+			}
+			switch be.Op {
+			case token.EQL, token.NEQ, token.LSS, token.GTR, token.LEQ, token.GEQ:
+			default:
+				return false
+			}
+			x, y := lenish(be.X), lenish(be.Y)
+			return (x == a && y == b) || (x == b && y == a)
+		}
+		inspectNoLit(body, func(n ast.Node) bool {
+			var idx types.Object
+			var over ast.Expr
+			var lbody *ast.BlockStmt
+			switch x := n.(type) {
+			case *ast.RangeStmt:
+				if x.Key == nil {
+					return true
+				}
+				if _, isSlice := info.TypeOf(x.X).Underlying().(*types.Slice); !isSlice {
+					return true
+				}
+				idx, over, lbody = objOf(info, x.Key), x.X, x.Body
+			case *ast.ForStmt:
+				// for i := 0; i < len(A) / A.Length(); i++
+				be, ok := x.Cond.(*ast.BinaryExpr)
+				if !ok || be.Op != token.LSS {
+					return true
+				}
+				idx = objOf(info, be.X)
+				if call, ok := ast.Unparen(be.Y).(*ast.CallExpr); ok {
+					if isBuiltin(info, call, "len") && len(call.Args) == 1 {
+						over = call.Args[0]
+					} else if se, ok := call.Fun.(*ast.SelectorExpr); ok && (se.Sel.Name == "Length" || se.Sel.Name == "LengthInt") {
+						over = se.X
+					}
+				}
+				lbody = x.Body
+			default:
+				return true
+			}
+			if idx == nil || over == nil || lbody == nil {
+				return true
+			}
+			a := exprRoot(over)
+			if a == nil {
+				return true
+			}
+			inspectNoLit(lbody, func(m ast.Node) bool {
+				var target ast.Expr
+				var at ast.Node
+				switch y := m.(type) {
+				case *ast.IndexExpr:
+					if objOf(info, y.Index) == idx {
+						if _, isSlice := info.TypeOf(y.X).Underlying().(*types.Slice); isSlice {
+							target, at = y.X, y
+						}
+					}
+				case *ast.CallExpr:
+					if isCall(info, y, "cty.Type.TupleElementType") && len(y.Args) == 1 && objOf(info, y.Args[0]) == idx {
+						target, at = y.Fun.(*ast.SelectorExpr).X, y
+					}
+				}
+				if target == nil {
+					return true
+				}
+				// assignment target (filling a result slice): not a read
+				if as, ok := c.Parent(at).(*ast.AssignStmt); ok {
+					for _, l := range as.Lhs {
+						if l == at.(ast.Expr) {
+							return true
+						}
+					}
+				}
+				b := exprRoot(target)
+				if b == nil || b == a {
+					return true
+				}
+				key := fmt.Sprintf("%s.%s/%s[%s over %s]", pkg, declName(fd), trunc(exprStr(target), 30), idx.Name(), trunc(exprStr(over), 30))
+				if cf.HoldsAt(at, func(cond ast.Expr, truth bool) bool { return relates(cond, a, b) }) {
+					rr.OK(key, at.Pos(), fmt.Sprintf("a branch condition relating the lengths of %s and %s is decided on every path to the access", a.Name(), b.Name()))
+				} else {
+					rr.Violation(key, at.Pos(), fmt.Sprintf("%s is addressed with the index of a loop over %s, and no branch condition on the way relates the lengths of %s and %s: when the caller passes operands of different length the access panics with an index out of range", exprStr(target), exprStr(over), b.Name(), a.Name()))
+				}
+				return true
+			})
+			return true
+		})
+	})
+}
